@@ -34,7 +34,9 @@ def tests(d):
 
 
 def demo(dirn, wt):
-    stub = os.path.join(VERIF, "seeded", "stubs", os.path.basename(dirn).split("_")[0])      # the agent's mpi4py stand-in, whatever path the demo guesses
+    stub = os.path.join(VERIF, "seeded", "stubs", os.path.basename(dirn))                     # the agent's mpi4py stand-in, whatever path the demo guesses
+    if not os.path.isdir(stub):
+        stub = os.path.join(VERIF, "seeded", "stubs", os.path.basename(dirn).split("_")[0])
     p = subprocess.run(["/venv/bin/python", os.path.join(dirn, "demo.py")], cwd=dirn, env=dict(os.environ, ESR_WT=wt, PYTHONPATH=stub + os.pathsep + wt),
                        capture_output=True, text=True, timeout=900)
     return p.returncode, (p.stdout + p.stderr)[-400:]
